@@ -2,7 +2,7 @@
    Model: Model/Multibuf.v with the set of NAMED temporary files (TempFile creates, os.Remove removes; New unlinks its
    file at once; a WriterOnce's spill file is removed only by the cleanup of a reader obtained from it),
    Model/Buffer.v with every return path of ServeHTTP and its deferred calls. *)
-From Oxy Require Import Base.Prelude Model.Multibuf Model.Buffer
+From Oxy Require Import Base.Prelude Model.Multibuf Model.Buffer Proofs.BufferSpill
   Proofs.BufferProofsA Proofs.BufferProofsB Proofs.BufferProofsC Proofs.BufferProofsD Proofs.BufferProofsE.
 From Oxy Require Gen.Consts.
 Open Scope Z_scope.
@@ -58,6 +58,37 @@ Theorem C15_writer_cleanup : forall base w fs data fs', winv base w fs data -> f
 Proof. exact close_bw_names. Qed.
 Print Assumptions C15_writer_cleanup.
 
+(* "bodies beyond the in-memory threshold are spilled to temporary files": when the protected handler of an attempt
+   returns, the named temporary files are those present before the attempt plus ONE exactly when the bytes the
+   response writer accepted exceed the effective threshold (MemResponseBodyBytes, 1 MiB when 0), none otherwise *)
+Theorem C15_response_spilled_exactly_beyond_threshold : forall c rq o k evs st, fs_wf (l_fs st) -> 0 <= memResp c ->
+  exists extra, fnames (l_fs (snd (one_attempt c rq o k evs st))) = extra ++ fnames (l_fs st) /\
+    length extra = if eff_mem (memResp c) <? blen (a_data (attempt_abs c evs)) then 1%nat else 0%nat.
+Proof. exact one_attempt_names. Qed.
+Print Assumptions C15_response_spilled_exactly_beyond_threshold.
+
+(* ... and the accepted bytes are all the bytes the handler wrote, when they fit the response limit *)
+Theorem C15_spill_in_terms_of_the_script : forall c evs, ~ In EHijack evs ->
+  maxResp c <= 0 \/ blen (wbytes evs) <= maxResp c ->
+  spills c evs = (eff_mem (memResp c) <? blen (wbytes evs)).
+Proof. exact spills_wbytes. Qed.
+Print Assumptions C15_spill_in_terms_of_the_script.
+
+(* the observable the harness compares: the number of named files at EVERY return of the handler during an exchange,
+   for every configuration, request, retry expression and scripts: spilled responses accumulate until ServeHTTP
+   returns (then C15_no_temp_left); a spilled REQUEST body never shows (its file is unlinked inside multibuf.New) *)
+Theorem C15_temp_files_while_serving : forall c fs hp rq body scripts,
+  0 <= memReq c -> 0 <= memResp c -> fs_wf fs -> (q_url rq < length hp)%nat -> (q_hdr rq < length hp)%nat ->
+  ~ over_request_limit c rq body ->
+  serve_tmps c fs hp rq body scripts = tmps_spec c (q_method rq) scripts 11 1 (length (fnames fs)).
+Proof. exact serve_tmps_spec. Qed.
+Print Assumptions C15_temp_files_while_serving.
+
+Theorem C15_request_spill_leaves_no_name : forall mem max input fs, fs_wf fs ->
+  fnames (fst (mb_new mem max input fs)) = fnames fs.
+Proof. exact mb_new_names. Qed.
+Print Assumptions C15_request_spill_leaves_no_name.
+
 (* the default thresholds of the model are those of buffer/buffer.go now *)
 Theorem C15_constants_match_source :
   Consts.DefaultMemBodyBytes = Multibuf.DefaultMemBytes /\ Consts.DefaultMaxBodyBytes = -1.
@@ -68,9 +99,10 @@ Print Assumptions C15_constants_match_source.
    1. POST, 20 bytes declared (spilled); the handler writes 30 (spilled) + 30 bytes: 500, error text, no file left;
    2. HEAD, 33 bytes chunked: 413, handler not invoked;
    3. HEAD, 9 bytes chunked; the handler writes 30 bytes (spilled) and answers 204: 204, empty, no file left.
-   While the handler of 1. runs there IS a named file: the writer model creates it. *)
+   While the handler of 1. runs there IS a named file: the writer model creates it, and the last observable of
+   exchanges 1 and 3 (named files when the handler returned) is 1. *)
 Example C15_history_exists :
   run [8;32;8;40;0] [[1;1;2;20;0;0;1; 2; 2;1;30; 2;2;30]; [2;1;2;33;1;0;1; 1; 2;1;30]; [2;1;2;9;1;0;1; 2; 2;1;30; 1;204;0]]
-  = [[20; 500; 0; 21; 150582934867; 0; 1; 1; 1; 20; 0; 0; 0; 0]; [-1; 413; 0; 0; 0; 0; 0]; [-1; 204; 0; 0; 0; 0; 1; 2; 1; 9; 0; 0; 0; 0]]
+  = [[20; 500; 0; 21; 150582934867; 0; 1; 1; 1; 20; 0; 0; 0; 0; 1]; [-1; 413; 0; 0; 0; 0; 0]; [-1; 204; 0; 0; 0; 0; 1; 2; 1; 9; 0; 0; 0; 0; 1]]
   /\ fnames (snd (fst (w_write (w_new 8 40) (gen_body 1 30) {| fnext := 5; fnames := [] |}))) = [5].
 Proof. split; vm_compute; reflexivity. Qed.
